@@ -13,9 +13,10 @@
    * Noise is an explicit side condition: the predicates [quiet*] ("the accumulated error of this object is below its
      decoding threshold") are premises, never conclusions; the harness measures the margin at the test parameter set. *)
 From Coq Require Import ZArith List Bool Lia.
+From PV Require Import Model.Znx Model.Flat Model.DftAbs Model.Gadget Model.GadgetSpec Proofs.C07Ring.
 From PV Require Import Gen.C15_gen Model.C13Bdd Model.C15Uint Model.C15Cbt Model.C15Word
   Proofs.C13Circuits Proofs.C15Layout Proofs.C15Surgery Proofs.C15WordProof Proofs.C15CbtProof Proofs.C15Blind
-  Proofs.C15Examples Proofs.C15CbtGeneral.
+  Proofs.C15Examples Proofs.C15CbtGeneral Proofs.C15Retriever Proofs.C15Discharge.
 Import ListNotations.
 Open Scope Z_scope.
 
@@ -123,12 +124,18 @@ Theorem C15_blind_rotation_amount : forall n kw (sign : bool) rsh mask lsh (a : 
 Proof. exact blind_rotation_amount. Qed.
 Print Assumptions C15_blind_rotation_amount.
 
-(* the streaming GLWEBlindRetriever and the reverse butterfly are covered by the correspondence check only *)
-Definition C15_retriever_index_full : Prop := forall size kw offset (data : list Z),
-  2 <= size <= 2 ^ 31 -> 0 <= offset -> offset + retr_nacc size <= 32 ->
+(* the streaming GLWEBlindRetriever (binary-counter accumulation, then flush): for every capacity (size 0 and 1 included:
+   at least one accumulator since /repo 38e6b0c), every number of
+   inputs 1 <= len <= 2^L and every selector, retrieve returns the input at index (k >> offset) mod 2^L *)
+Theorem C15_retriever_index_full : forall size kw offset (data : list Z),
+  0 <= size <= 2 ^ 31 -> 0 <= offset -> offset + retr_nacc size <= 32 ->
   Z.of_nat (length data) <= 2 ^ retr_nacc size ->
   (kw / 2 ^ offset) mod 2 ^ retr_nacc size < Z.of_nat (length data) ->
   retrieve size (bits_of 32 kw) offset data = Some (lget data ((kw / 2 ^ offset) mod 2 ^ retr_nacc size)).
+Proof. exact retriever_index. Qed.
+Print Assumptions C15_retriever_index_full.
+
+(* the reverse butterfly glwe_blind_retrieval_statefull_rev is covered by the correspondence check only *)
 
 (** * Word operations *)
 
@@ -146,6 +153,61 @@ Theorem C15_heval_refines_eval_stale :
   enc_bit (fst (heval glwe ggsw cmux ct_zero ct_one c s)) (eval_stale c e).
 Proof. exact heval_correct. Qed.
 Print Assumptions C15_heval_refines_eval_stale.
+
+(* the hypothesis cmux_selects DISCHARGED against C04's phase theorem.  Ciphertexts come with their phase (n coefficients
+   scaled by 2^P, as Gadget.phase_val), Delta = 2^(P-2) encodes a bit at coefficient 0;
+     enc_c c q   := every coefficient of phase c is strictly within Delta/2 of Delta * q       (c decodes to q)
+     quiet_c c   := phase c is within Delta/2 - BE of the encoding of some bit                  (noise side condition)
+   If cmux satisfies the phase equation that C04_cmux_selects proves (selected input + error polynomial bounded by BE,
+   modulo 2^P), the evaluator of eval.rs refines eval_stale.  What remains is noise only: the bound BE on one cmux's error
+   polynomial (gadget error + final rounding) and quiet_c of every intermediate ciphertext. *)
+Theorem C15_heval_refines_eval_stale_phase :
+  forall (glwe ggsw : Type) (phase : glwe -> list Z) (n : nat) (P BE : Z) (cmux : glwe -> glwe -> ggsw -> glwe)
+         (enc_sel : ggsw -> bool -> Prop) (ct_zero ct_one : glwe),
+  3 <= P -> 0 <= BE -> (1 <= n)%nat ->
+  (forall t f s b, enc_sel s b ->
+     exists E I : list Z, (forall k, Z.abs (nth k E 0) <= BE) /\
+       forall k, (k < n)%nat ->
+         nth k (phase (cmux t f s)) 0 = nth k (phase (if b then t else f)) 0 + nth k E 0 + 2 ^ P * nth k I 0) ->
+  enc_c glwe phase n P ct_zero (p_const 0) -> enc_c glwe phase n P ct_one (p_const 1) ->
+  forall (c : circuit) (s : nat -> ggsw) (e : nat -> bool) (nb : nat),
+  exec_safe nb c = true -> (forall v, (v < nb)%nat -> enc_sel (s v) (e v)) ->
+  Forall (quiet_c glwe phase n P BE) (snd (heval glwe ggsw cmux ct_zero ct_one c s)) ->
+  enc_c glwe phase n P (fst (heval glwe ggsw cmux ct_zero ct_one c s)) (p_const (if eval_stale c e then 1 else 0)).
+Proof. exact heval_correct_of_phase. Qed.
+Print Assumptions C15_heval_refines_eval_stale_phase.
+
+(* the phase equation itself, for the model Gadget.cmux of the real code (C04_cmux_selects, coefficient by coefficient,
+   before the final normalisation whose rounding term is C03_normalize_cols_phase's R): the selector's GGSW cells
+   (C04_ggsw_cells / key_rows_ok) encrypt bit in {0, 1}; E is C04's gadget_err *)
+Theorem C15_cmux_phase_from_C04 :
+  forall (be P b : Z) (n rank res_size t_size f_size dsize dnum msize : nat) (res0 t f : cols_t) (K : pmat)
+         (Sk : nat -> list Z) (bit : Z) (e I : nat -> nat -> list Z),
+    (1 <= n)%nat ->
+    wf_cols n (S rank) t_size t -> wf_cols n (S rank) f_size f ->
+    length res0 = S rank -> (forall co : nat, (co < S rank)%nat -> length (col res0 co) = msize) ->
+    wf_pmat_in n (dnum * S rank) (msize * S rank) K ->
+    (1 <= dsize)%nat -> (dsize - 2 <= msize)%nat ->
+    (forall co : nat, length (Sk co) = n) ->
+    (forall row ci : nat, length (e row ci) = n) -> (forall row ci : nat, length (I row ci) = n) ->
+    0 <= b -> Z.of_nat msize * b <= P -> Z.of_nat dnum * Z.of_nat dsize * b <= P ->
+    key_rows_ok P b n (S rank) (S rank) msize dsize dnum K Sk
+      (fun ci : nat => pmul (pscale bit (pone n)) (Sk ci)) e I ->
+    bit = 0 \/ bit = 1 ->
+    (bit = 1 -> (f_size <= Nat.min res_size (dnum * dsize))%nat /\ (f_size <= msize)%nat) ->
+    exists (big : cols_t) (E Iq : list Z),
+      cmux be n b rank res_size t_size f_size dsize dnum msize res0 t f K =
+        sequence (map (big_normalize (wbig be) n b b res_size) (map2 add_small big f)) /\
+      E = gadget_err P b n (S rank) (S rank) msize dsize dnum
+            (acol n (map2 (col_sub n res_size) t f)) K Sk e /\
+      length E = n /\ length Iq = n /\
+      forall k, (k < n)%nat ->
+        nth k (phase_f P b n (S rank) msize (limbs_of (map2 add_small big f)) Sk) 0 =
+        nth k (if bit =? 1 then phase_f P b n (S rank) (Nat.min res_size (dnum * dsize)) (acol n t) Sk
+               else phase_f P b n (S rank) (Nat.min msize f_size) (acol n f) Sk) 0
+        + nth k E 0 + 2 ^ P * nth k Iq 0.
+Proof. exact cmux_phase_pointwise. Qed.
+Print Assumptions C15_cmux_phase_from_C04.
 
 (* packed encryption -> prepare (circuit bootstrapping of every bit) -> one of the ten compiled two-word circuits ->
    repack decrypts to the RISC-V word operation of C13 ((a+b) mod 2^32, a << (b & 31), signed <, ...) *)
@@ -210,13 +272,13 @@ Print Assumptions C15_identity_correct.
    X^(m * 2^log_gap_out) in exponent mode — on every parameter set whose ideal rows decode to that message *)
 Theorem C15_circuit_bootstrap_cells :
   forall (lwe glwe ggsw : Type) (blind_rotate : lwe -> glwe) (g_rot g_trace : Z -> glwe -> glwe)
-         (g_post : glwe -> glwe) (g_expand : list glwe -> ggsw) (logn base2k dnum rank : Z) (expo : bool) (ld lgo : Z),
+         (g_post : glwe -> glwe) (g_expand : list glwe -> ggsw) (logn base2k dnum rank bb : Z) (expo : bool) (ld lgo : Z),
   0 <= dnum ->
   forall (lwe_msg : lwe -> Z -> Prop) (enc_poly : glwe -> poly -> Prop) (cell_enc : ggsw -> Z -> Z -> poly -> Prop)
          (quiet : glwe -> Prop) (quiet_ggsw : ggsw -> Prop),
   (* blind_rotation_phase, lut_set_then_rotate_selects (C14) *)
   (forall l m, lwe_msg l m -> 0 <= m < 2 ^ ld -> quiet (blind_rotate l) ->
-               enc_poly (blind_rotate l) (br_acc logn base2k dnum expo ld m)) ->
+               enc_poly (blind_rotate l) (br_acc logn base2k dnum bb expo ld m)) ->
   (* phase_rotate (C02) *)
   (forall k c q, enc_poly c q -> enc_poly (g_rot k c) (p_rot (2 ^ logn) k q)) ->
   (* trace (C03) *)
@@ -226,46 +288,64 @@ Theorem C15_circuit_bootstrap_cells :
   (* GGLWE -> GGSW (C04) *)
   (forall rows (mp : poly), length rows = Z.to_nat dnum ->
      (forall i, 0 <= i < dnum -> exists c q, nth_error rows (Z.to_nat i) = Some c /\ enc_poly c q /\
-                                             forall j, 0 <= j < 2 ^ logn -> row_decoded base2k dnum i q j = mp j) ->
+                                             forall j, 0 <= j < 2 ^ logn -> row_decoded base2k dnum bb i q j = mp j) ->
      quiet_ggsw (g_expand rows) ->
      forall row col, 0 <= row < dnum -> 0 <= col <= rank -> cell_enc (g_expand rows) row col mp) ->
   forall l m, lwe_msg l m -> 0 <= m < 2 ^ ld ->
-  cbt_rows_ok logn base2k dnum expo ld lgo m = true ->
+  cbt_rows_ok logn base2k dnum bb expo ld lgo m = true ->
   cbt_quiet lwe glwe ggsw blind_rotate g_rot g_trace g_post g_expand logn dnum expo ld quiet quiet_ggsw l ->
   forall row col, 0 <= row < dnum -> 0 <= col <= rank ->
     cell_enc (cbt_ct lwe glwe ggsw blind_rotate g_rot g_trace g_post g_expand logn dnum expo ld l) row col (cand logn expo lgo m).
 Proof. exact circuit_bootstrap_cells. Qed.
 Print Assumptions C15_circuit_bootstrap_cells.
 
-(* the premise [cbt_rows_ok] at the crate's test parameter set (N = 256, base2k = 13, dnum = 2): constant mode for
+(* the premise [cbt_rows_ok] at the crate's test parameter set (N = 256, base2k = 13, dnum = 2, blind-rotation radix 12): constant mode for
    log_domain 1, 2 and every message; exponent mode through both branches of post_process (packing, and trace only
    when log_gap_out = log_gap_in — the branch repaired by /repo commit b689fc8) *)
 Theorem C15_cbt_rows_ok_partial :
-  forallb (fun ld => forallb (fun m => cbt_rows_ok 8 13 2 false ld 0 m) (zseq 0 (Z.to_nat (2 ^ ld)))) [1; 2] = true /\
+  forallb (fun ld => forallb (fun m => cbt_rows_ok 8 13 2 12 false ld 0 m) (zseq 0 (Z.to_nat (2 ^ ld)))) [1; 2] = true /\
   (log_gap_in 8 2 1 = 7 /\ log_gap_in 8 2 2 = 6 /\
-   forallb (fun lgo => forallb (fun m => cbt_rows_ok 8 13 2 true 1 lgo m) [0; 1]) [0; 1; 2; 3; 4; 5; 6; 7] = true /\
-   forallb (fun lgo => forallb (fun m => cbt_rows_ok 8 13 2 true 2 lgo m) [0; 1; 2; 3]) [0; 1; 2; 3; 4; 5; 6] = true).
+   forallb (fun lgo => forallb (fun m => cbt_rows_ok 8 13 2 12 true 1 lgo m) [0; 1]) [0; 1; 2; 3; 4; 5; 6; 7] = true /\
+   forallb (fun lgo => forallb (fun m => cbt_rows_ok 8 13 2 12 true 2 lgo m) [0; 1; 2; 3]) [0; 1; 2; 3; 4; 5; 6] = true).
 Proof. exact (conj cbt_rows_ok_constant_test cbt_rows_ok_exponent_test). Qed.
 Print Assumptions C15_cbt_rows_ok_partial.
 
 (* constant mode (the mode FheUintPrepared::prepare uses) for ALL parameter sets: every ring degree, gadget (base2k, dnum)
    and log_domain with 2^ld * next_pow2(dnum) < 2^logn (the code's assert gap > 0) and ld < base2k, every message *)
-Theorem C15_cbt_rows_ok_constant : forall logn base2k dnum ld m,
-  1 <= dnum -> 0 <= ld -> ld + 1 <= base2k ->
+Theorem C15_cbt_rows_ok_constant : forall logn base2k dnum bb ld m,
+  1 <= dnum -> 0 <= ld -> ld + 1 <= base2k -> 1 <= bb ->
+  (* the overflow assert of circuit_bootstrap_core holds (no lookup-table coefficient leaves i64) *)
+  cb_asserts base2k dnum bb false ld = true ->
   2 * (2 ^ ld * next_pow2 dnum) <= 2 ^ logn -> 0 <= logn ->
   0 <= m < 2 ^ ld ->
-  cbt_rows_ok logn base2k dnum false ld 0 m = true.
+  cbt_rows_ok logn base2k dnum bb false ld 0 m = true.
 Proof. exact cbt_rows_ok_constant_general. Qed.
 Print Assumptions C15_cbt_rows_ok_constant.
 
-(* the full statement (all parameter sets, both modes); its constant-mode half is C15_cbt_rows_ok_constant, the
-   exponent-mode half is proved at the test parameter set only (C15_cbt_rows_ok_partial) *)
-Definition C15_cbt_rows_ok_full : Prop :=
-  forall logn base2k dnum expo ld lgo m,
-    1 <= dnum -> 0 <= ld -> ld + 1 <= base2k -> 0 <= lgo -> 0 <= logn ->
-    2 * (2 ^ ld * next_pow2 dnum) <= 2 ^ logn -> 0 <= m < 2 ^ ld ->
-    (2 ^ ld - 1) * 2 ^ lgo < 2 ^ logn ->
-    cbt_rows_ok logn base2k dnum expo ld lgo m = true.
+(* the parameter sets whose lookup-table coefficients would leave i64 (1 << 63; 2^60 * scale 2^4; 8 * 2^60) are rejected by
+   that assert since /repo a84e8a5 (before the repair every assert passed and row 0 of the GGSW was wrong); the test
+   parameter set and res_base2k = 20, dnum = 3 are accepted *)
+Theorem C15_cbt_lut_overflow_rejected :
+  cb_asserts 21 4 14 false 1 = false /\ cb_row 8 21 4 14 false 1 0 1 0 = None /\
+  cb_asserts 20 4 14 false 1 = false /\ cb_asserts 30 3 15 false 4 = false /\ cb_asserts 21 4 14 true 1 = false /\
+  cb_asserts 13 2 12 false 1 = true /\ cb_asserts 13 2 12 true 1 = true /\ cb_asserts 20 3 15 false 1 = true.
+Proof. exact cbt_lut_overflow_rejected. Qed.
+Print Assumptions C15_cbt_lut_overflow_rejected.
+
+(* the full statement: both modes (constant; exponent through both branches of post_process), ALL parameter sets *)
+Theorem C15_cbt_rows_ok_full :
+  forall logn base2k dnum bb expo ld lgo m,
+    1 <= dnum -> 0 <= ld -> ld + 1 <= base2k -> 2 <= base2k -> 1 <= bb ->
+    (* the overflow assert of circuit_bootstrap_core *)
+    cb_asserts base2k dnum bb expo ld = true ->
+    (* the code's assert gap > 0 *)
+    2 * (2 ^ ld * next_pow2 dnum) <= 2 ^ logn -> 0 <= logn ->
+    (* glwe_pack's assert on the largest key *)
+    0 <= lgo -> (2 ^ ld - 1) * 2 ^ lgo < 2 ^ logn ->
+    0 <= m < 2 ^ ld ->
+    cbt_rows_ok logn base2k dnum bb expo ld lgo m = true.
+Proof. exact cbt_rows_ok_general. Qed.
+Print Assumptions C15_cbt_rows_ok_full.
 
 (** * Examples: the statements are not vacuous *)
 
@@ -298,11 +378,11 @@ Example C15_ex_word_op_hypotheses_satisfiable : forall logn, 5 <= logn -> forall
 Proof. exact ideal_word_op. Qed.
 
 (* likewise for C15_circuit_bootstrap_cells *)
-Example C15_ex_cbt_hypotheses_satisfiable : forall logn base2k dnum rank expo ld lgo, 0 <= dnum -> forall m,
-  0 <= m < 2 ^ ld -> cbt_rows_ok logn base2k dnum expo ld lgo m = true ->
+Example C15_ex_cbt_hypotheses_satisfiable : forall logn base2k dnum rank bb expo ld lgo, 0 <= dnum -> forall m,
+  0 <= m < 2 ^ ld -> cbt_rows_ok logn base2k dnum bb expo ld lgo m = true ->
   forall row col, 0 <= row < dnum -> 0 <= col <= rank ->
-    j_cell logn base2k dnum
-      (cbt_ct Z poly (list poly) (j_blind_rotate logn base2k dnum expo ld) (p_rot (2 ^ logn)) (p_trace (2 ^ logn))
+    j_cell logn base2k dnum bb
+      (cbt_ct Z poly (list poly) (j_blind_rotate logn base2k dnum bb expo ld) (p_rot (2 ^ logn)) (p_trace (2 ^ logn))
               (j_post logn dnum ld lgo) j_expand logn dnum expo ld m)
       row col (cand logn expo lgo m).
 Proof. exact ideal_cbt_cells. Qed.
